@@ -6,10 +6,12 @@
 package ggml
 
 //@ func ggufPadding
-//@   requires align > 0 && offset >= 0
-//@   ensures  0 <= result && result < align
-//@   ensures  (offset + result) % align == 0
-//@   ensures  offset % align == 0 ==> result == 0
+//@   requires align > 0 && align < (1 << 62)
+//@   modifies nothing
+//@   ensures  result == pad(offset, align)
+//@   ensures  offset >= 0 ==> 0 <= result && result < align
+//@   ensures  offset >= 0 ==> (offset + result) % align == 0
+//@   ensures  offset >= 0 && offset % align == 0 ==> result == 0
 
 // ---- decode path (C10): every function between ggml.Decode and the bytes of the file.
 // ---- Readers are opaque; every decoded integer is unconstrained within its type.
@@ -49,17 +51,17 @@ package ggml
 //@   modifies *c
 
 //@ func (Tensor).blockSize
-//@   modifies nothing
+//@   pure reads none
 //@   ensures result == 1 || result == 32 || result == 256
 
 //@ func (Tensor).typeSize
-//@   modifies nothing
+//@   pure reads none
 
 //@ func (Tensor).parameters
-//@   modifies nothing
+//@   pure reads uint64
 
 //@ func (Tensor).Size
-//@   modifies nothing
+//@   pure reads uint64
 
 //@ func DetectContentType
 //@   modifies nothing
@@ -111,3 +113,39 @@ package ggml
 //@   pure reads none
 //@ extern func (GGML).SupportsKVCacheType
 //@   pure reads none
+
+// ---- GGUF writer layout (C05). The stream position of the io.WriteSeeker is the ghost
+// ---- field ws.ghost_pos; encoding/binary.Write advances it by the encoded size, Seek(0,
+// ---- SeekCurrent) returns it. ghost_end (ghost variable of WriteGGUF) is the end of the
+// ---- previous tensor's data relative to the start of the data section.
+
+//@ spec func pad(off int, al int) int = (al - off % al) % al
+
+//@ lemma pad_aligned(off int, al int)
+//@   requires al > 0 && off >= 0
+//@   ensures 0 <= pad(off, al) && pad(off, al) < al && (off + pad(off, al)) % al == 0
+
+//@ func ggufWriteTensorInfo
+//@   modifies ws.ghost_pos
+
+//@ func ggufWriteTensor
+//@   requires alignment > 0 && alignment < (1 << 62)
+//@   modifies ws.ghost_pos
+//@   assume-at after call WriteTo #1 : result.1 == nil ==> result.0 == t.Size()    -- what callers of WriteGGUF owe: a tensor's WriterTo writes exactly Size() bytes
+//@   ensures result == nil ==> ws.ghost_pos == old(ws.ghost_pos) + pad(old(ws.ghost_pos), alignment) + t.Size()
+
+// WriteGGUF: the offset declared for a tensor is the aligned end of the previous tensor,
+// i.e. declared offsets obey  off(0) = 0, off(i+1) = alignup(off(i) + Size(i));
+// ggufWriteTensor's contract gives the data positions the same recurrence from the
+// aligned start D of the data section, so data(i) - D == off(i) (induction, pad_shift).
+// Loops: 1 keys, 2 tensor infos, 3 tensor data.
+//@ func WriteGGUF
+//@   assume-at call Write #1 : alignment > 0        -- general.alignment = 0 is not a valid GGUF (the writer would divide by zero)
+//@   ghost-at entry : ghost_end := 0
+//@   assert-at call ggufWriteTensorInfo #1 : t.Offset == ghost_end + pad(ghost_end, alignment)
+//@   ghost-at after call ggufWriteTensorInfo #1 : ghost_end := t.Offset + t.Size()
+//@   requires len(ts) <= (1 << 20)
+//@   assume-at after call Size #1 : result < (1 << 40)          -- range assumption: a tensor is smaller than 1 TiB
+//@   assume-at call ggufWriteTensorInfo #1 : alignment < (1 << 40)
+//@   loop 2 invariant s == ghost_end
+//@   loop 2 invariant s <= (rangeindex + 1) * (1 << 41)
